@@ -374,6 +374,8 @@ class Interp:
             return 0
         if k == "Expr":
             return self.eval(e["e"], fr)
+        if k == "Unknown" and e.get("cls") in ("ImplicitValueInitExpr", "CXXScalarValueInitExpr"):
+            return 0
         raise AnalysisBroken("expression kind %s not modelled at %s" % (k if k != "Unknown" else e.get("cls"), ir.locstr(e)))
 
     def eval_un(self, e, fr):
